@@ -95,7 +95,10 @@ def generate(seed: int, tier: str) -> Dict[str, Any]:
             "state_style": r.choice(["dict", "dict", "attr", "attr"]), "registry": r.sample(["n4", "n1", "n3", "n2", "B", "a"], r.randint(2, 5)),
             "readers": sorted(a["id"] for a in agents if r.chance(0.3)),
             # a driver context that carries no turn id at all
-            "no_turn_id": r.chance(0.06), "ctx_style": r.choice(["both", "both", "cfg_only"])}
+            "no_turn_id": r.chance(0.06), "ctx_style": r.choice(["both", "both", "cfg_only"]),
+            "read_how": r.choice(["attr", "attr", "subscript"]),
+            # ... or one whose turn id is there and is None
+            "turn_id_none": r.chance(0.05)}
 
 
 class _AState(dict):
@@ -151,9 +154,13 @@ def _mk_stub(spec_by_agent: Dict[str, Dict[str, Any]]):
         if spec.get("reads_registry"):
             # an order-sensitive read of a mapping on the state (first two entries in iteration order), logged together with the
             # list held under the first one - in the compute phase these come out of the read-only snapshot
-            reg = getattr(state, "registry", None)
-            if reg is None:
-                reg = state.get("registry") if hasattr(state, "get") else None
+            how = spec.get("read_how", "attr")
+            if how == "subscript":
+                reg = state["registry"]          # the plain-dict way (tests/helpers build dict states and read them like this)
+            else:
+                reg = getattr(state, "registry", None)
+                if reg is None:
+                    reg = state.get("registry") if hasattr(state, "get") else None
             if reg is not None:
                 first = list(reg)[:2]
                 held = reg[first[0]] if first else []
@@ -190,7 +197,7 @@ def _contract_once(p: Dict[str, Any], mode: str, limit: Optional[int], stats: Di
     out: Dict[str, Any] = {"exc": None}
     spec_by_agent: Dict[Any, Dict[str, Any]] = {}
     for a in p["agents"]:
-        a = dict(a, reads_registry=a["id"] in (p.get("readers") or []))
+        a = dict(a, reads_registry=a["id"] in (p.get("readers") or []), read_how=p.get("read_how", "attr"))
         spec_by_agent.setdefault(a["id"], a)
         spec_by_agent[(a["id"], a["text"])] = a
     real_run_turn = core.Orchestrator.run_turn
@@ -203,6 +210,8 @@ def _contract_once(p: Dict[str, Any], mode: str, limit: Optional[int], stats: Di
             ctx = types.SimpleNamespace(cfg=cfg, config=cfg, turn_id=p["turn_id"], now_ms=E.T0_MS, now=E.iso_from_ms(E.T0_MS))
             if p.get("no_turn_id"):
                 del ctx.turn_id
+            elif p.get("turn_id_none"):
+                ctx.turn_id = None
             if p.get("ctx_style") == "cfg_only":
                 del ctx.config   # the shape of the engine's own TurnCtx and of every caller in the tree: the configuration on ctx.cfg only
             store = _Store()
